@@ -211,26 +211,37 @@ func renderZipkinSpan(b *Batch, s *Span) string {
 }
 
 func renderZipkin(b *Batch) []byte {
+	body, _ := renderZipkinOffsets(b)
+	return body
+}
+
+// renderZipkinOffsets also returns, for every span, the offsets [start, end) of its object text in the body.
+func renderZipkinOffsets(b *Batch) ([]byte, [][2]int) {
 	var buf bytes.Buffer
+	offs := make([][2]int, 0, len(b.Spans))
 	if b.ND {
 		for i := range b.Spans {
 			if i > 0 {
 				buf.WriteByte('\n')
 			}
+			st := buf.Len()
 			buf.WriteString(renderZipkinSpan(b, &b.Spans[i]))
+			offs = append(offs, [2]int{st, buf.Len()})
 		}
 		if b.TrailNL {
 			buf.WriteByte('\n')
 		}
-		return buf.Bytes()
+		return buf.Bytes(), offs
 	}
 	buf.WriteByte('[')
 	for i := range b.Spans {
 		if i > 0 {
 			buf.WriteByte(',')
 		}
+		st := buf.Len()
 		buf.WriteString(renderZipkinSpan(b, &b.Spans[i]))
+		offs = append(offs, [2]int{st, buf.Len()})
 	}
 	buf.WriteByte(']')
-	return buf.Bytes()
+	return buf.Bytes(), offs
 }
